@@ -134,10 +134,29 @@ func GetCurrentDBDirName(fs vfs.FS, dir string) (string, error) {
 
 // CreateNodeDataDir creates new SM data dir.
 func CreateNodeDataDir(fs vfs.FS, dir string) error {
+	// Find the topmost directory MkdirAll is going to create, the entry of every created directory has to be synced.
+	top := filepath.Clean(dir)
+	for parent := filepath.Dir(top); parent != top && parent != "."; parent = filepath.Dir(parent) {
+		if _, err := fs.Stat(parent); err == nil {
+			break
+		}
+		top = parent
+	}
 	if err := fs.MkdirAll(dir, 0o755); err != nil {
 		return err
 	}
-	return syncDir(fs, filepath.Dir(dir))
+	for d := filepath.Clean(dir); ; d = filepath.Dir(d) {
+		parent := filepath.Dir(d)
+		if parent == d || parent == "." {
+			return nil
+		}
+		if err := syncDir(fs, parent); err != nil {
+			return err
+		}
+		if d == top {
+			return nil
+		}
+	}
 }
 
 // CleanupNodeDataDir cleans up old data dir (should be called after successful switch).
